@@ -20,6 +20,13 @@ def cases(tier, seed):
     # analyse -> edit the same model object in place -> analyse again with the same operation object
     for m in sp.structures_upto(4 if tier == 'quick' else 5):
         yield ('SE', m)
+    # two executions of the operation that overlap (see vmc.sched): every pair of 3-feature models and a
+    # few wider groups
+    small = list(sp.structures(3))
+    wide = [sh.M(sh.F('Fa', [sh.R(a, b, [sh.F(n) for n in ('Bb', 'Dc', 'Ad', 'Ee')[:k]])])) for (k, a, b) in ((3, 1, 2), (4, 2, 3), (4, 0, 2), (3, 0, 1))]
+    for ma in small + wide:
+        for mb in (small[::5] + wide if ma in small else small[::3] + wide):
+            yield ('ST', ma, mb)
     # an execution that raises half-way on an ill-formed variant, then the well-formed model (same
     # operation object, then a fresh one); and what the caller does with a returned result
     for m in list(sp.structures_upto(4 if tier == 'quick' else 5))[1:]:
@@ -84,6 +91,8 @@ def plan(tier, what):
 
 
 def describe(case):
+    if case[0] == 'ST':
+        return 'ST:%s preempted by %s' % (sh.model_str(case[1]), sh.model_str(case[2]))
     if case[0] == 'B':
         return 'B:%s' % (case[1],)
     return cm.describe_model_case(case)
@@ -100,11 +109,17 @@ reduce = cm.reduce_model_case
 
 
 def nontrivial(case):
-    return case[0] in ('B', 'DC', 'SF', 'SO', 'WIDE') or cm.has_group_or_ctc(case[1])
+    return case[0] in ('B', 'DC', 'SF', 'SO', 'WIDE', 'ST') or cm.has_group_or_ctc(case[1])
 
 
 def reduce(case):  # noqa: F811
     if case[0] in ('B', 'DC', 'WIDE'):
+        return
+    if case[0] == 'ST':
+        for r in sh.reductions(case[1], sp.NAME_POOL):
+            yield ('ST', r, case[2])
+        for r in sh.reductions(case[2], sp.NAME_POOL):
+            yield ('ST', case[1], r)
         return
     yield from cm.reduce_model_case(case)
 
@@ -136,6 +151,34 @@ def edit_history(model, op_class, oracle):
             f.detail = {'edit': what, 'info': f.detail}
         if out:
             return out
+    return []
+
+
+def overlap(ma, mb, op_class, oracle):
+    from .. import build as bd
+    from .. import engine, sched
+    from ..engine import Fail
+
+    def make(model):
+        def factory():
+            fm = bd.build(model)
+            op = op_class()
+            return lambda: op.execute(fm).get_result()
+        return factory
+    try:
+        for k, n, ra, rb in sched.explore(make(ma), make(mb)):
+            engine.tick(2)
+            if rb is None or rb[0] != 'ok':
+                return [Fail('overlapping-executions:second-raises', {'at line event': '%d of %d' % (k, n), 'msg': repr(rb)[:200]})]
+            for who, res, model in (('first', ra, ma), ('second', rb[1], mb)):
+                out = oracle(res, model)
+                for f in out:
+                    f.clause = 'overlapping-executions:%s:%s' % (who, f.clause)
+                    f.detail = {'second ran at line event': '%d of %d' % (k, n), 'info': f.detail}
+                if out:
+                    return out
+    except Exception as exc:  # noqa: BLE001
+        return [Fail('overlapping-executions:raises:%s' % type(exc).__name__, str(exc)[:200])]
     return []
 
 
